@@ -45,6 +45,7 @@ pub mod c42;
 pub mod c43;
 
 pub mod sqlprobe;
+pub mod crash;
 pub mod dmlengine;
 
 pub fn dispatch(a: &Args) -> i32 {
@@ -93,6 +94,8 @@ pub fn dispatch(a: &Args) -> i32 {
         "C42" => c42::run(a),
         "C43" => c43::run(a),
         "sql" => sqlprobe::run(a),
+        "crashchild" => crash::child_main(&a.rest),
+        "crashopen" => crash::open_main(&a.rest),
         other => {
             eprintln!("unknown property/subcommand {}", other);
             2
